@@ -190,6 +190,14 @@ func (c *Ctx) ownRun() map[string]*simpleVerdict {
 			note("lists", fmt.Sprintf("%s holds %s after SetByIndex(4, 99); an indexed write past the end grows the array with nulls: [1 2 null null 99]", where, got), "")
 			continue
 		}
+		// the padding consists of distinct null variants: changing one is invisible in the other
+		if e2, o := call(v, "GetByIndex", int64(2)); o.kind == "ok" {
+			call(e2, "SetAsInteger", int64(7))
+			if got := elems(v); got != "[Integer:1 Integer:2 Integer:7 Null:nil Integer:99]" {
+				note("lists", fmt.Sprintf("%s: after growing to [1 2 null null 99], setting element 2 to 7 gives %s: the padded slots are one shared variant", where, got), "")
+				continue
+			}
+		}
 		l, _ := call(v, "Length")
 		if mRender(l) != "5" {
 			note("lists", fmt.Sprintf("%s reports length %s after growing to 5 elements", where, mRender(l)), "")
